@@ -2,8 +2,7 @@
 discopy.quantum imported from /repo, canonical observations of
 Circuit.eval(mixed=True) / eval() / is_mixed / get_counts() / measure(), and --
 written without any use of discopy -- the syntactic typing of a program, the
-classification of boxes (trace-preserving class, triggers of the known
-findings) and an independent reference evaluation of mixed circuits.
+classification of boxes (trace-preserving class) and an independent reference evaluation of mixed circuits.
 
 Programs (nested int lists; a phase integer k is the DisCoPy phase k/16):
   ty      [w, ...]            w = 0 bit, 1 qubit
@@ -27,6 +26,7 @@ Outcomes: [0, value] | [1, code]; values
 import cmath
 import json
 import math
+import zlib
 
 from common import import_repo, with_timeout, CaseTimeout
 
@@ -58,8 +58,7 @@ SPIDER = [1, 0, 0, 0, 0, 0, 0, 1]
 
 def err_code(exc):
     """Exception *class* -> code.  The DISCOPY_VERIF hook's VerifHookError (an
-    ill-typed diagram was built) is reported as AxiomError: without the hook
-    the same diagram is returned and its evaluation raises AxiomError."""
+    ill-typed diagram was built by the library) is reported as AxiomError."""
     if isinstance(exc, AxiomError):
         return ERR["AxiomError"]
     if type(exc).__name__ == "VerifHookError":
@@ -74,15 +73,16 @@ def err_code(exc):
     if name not in UNKNOWN_CLASSES:
         UNKNOWN_CLASSES.append(name)
     COUNTS["unknown_exception"] += 1
-    return OTHER + UNKNOWN_CLASSES.index(name)
+    return OTHER + zlib.crc32(name.encode()) % 1000
 
 
 def err_name(code):
     for name, c in ERR.items():
         if c == code:
             return name
-    if code >= OTHER and code - OTHER < len(UNKNOWN_CLASSES):
-        return UNKNOWN_CLASSES[code - OTHER]
+    for name in UNKNOWN_CLASSES:
+        if code == OTHER + zlib.crc32(name.encode()) % 1000:
+            return name
     return {BAD_SHAPE: "bad-shape", NOT_A_MAP: "not-a-map", TIMEOUT: "timeout"}.get(
         code, "code%d" % code)
 
@@ -137,7 +137,7 @@ def box_dom(b):
     if t == B_MEASURE:
         return [1] * b[1] + ([0] * b[1] if b[3] else [])
     if t == B_ENCODE:
-        return [0] * b[1]                       # as the constructor declares it
+        return ([] if b[2] else [1] * b[1]) + [0] * b[1]
     if t == B_MSWAP:
         return [b[1], b[2]]
     return []
@@ -160,29 +160,14 @@ def box_cod(b):
     if t == B_MEASURE:
         return ([] if b[2] else [1] * b[1]) + [0] * b[1]
     if t == B_ENCODE:
-        return [1] * b[1]                       # as the constructor declares it
+        return [1] * b[1] + ([0] * b[1] if b[3] else [])
     if t == B_MSWAP:
         return [b[2], b[1]]
     return []
 
 
-def true_dom(b):
-    """The domain the box's *evaluation* has (differs from box_dom for the
-    mistyped Encode variants, finding F9b)."""
-    if b[0] == B_ENCODE:
-        return ([] if b[2] else [1] * b[1]) + [0] * b[1]
-    return box_dom(b)
-
-
-def true_cod(b):
-    if b[0] == B_ENCODE:
-        return [1] * b[1] + ([0] * b[1] if b[3] else [])
-    return box_cod(b)
-
-
 def box_dagger(b):
-    """b.dagger() as the library builds it (Scalar.dagger of a non-real mixed
-    scalar returns a pure scalar)."""
+    """b.dagger(), written syntactically."""
     t = b[0]
     if t < 10:
         return gi.box_dagger(b)
@@ -203,9 +188,8 @@ def box_dagger(b):
     if t == B_ENCODE:
         return [B_MEASURE, b[1], b[2], b[3]]
     if t == B_MSCALAR:
-        if num_is_real(b[1]):
-            return list(b)
-        return gi.box_dagger([gi.B_SCALAR, list(b[1]), b[2]])
+        conj = gi.box_dagger([gi.B_SCALAR, list(b[1]), b[2]])
+        return [B_MSCALAR, conj[1], conj[2]]
     if t == B_MSWAP:
         return [t, b[2], b[1]]
     raise AssertionError("bad box %r" % (b,))
@@ -284,18 +268,6 @@ def has_op(p, op):
     return False
 
 
-def f9_trigger(b):
-    """A Measure with override_bits=True is evaluated (directly or as the dagger
-    of Encode(reset_bits=True))."""
-    return b[0] in (B_MEASURE, B_ENCODE) and bool(b[3]) and b[1] >= 0
-
-
-def f9b_trigger(b):
-    """Encode(n >= 1, constructive=False) (= Measure(n, destructive=False).dagger()):
-    declared bit ** n -> qubit ** n, evaluated qubit ** n @ bit ** n -> qubit ** n."""
-    return b[0] == B_ENCODE and not b[2] and not b[3] and b[1] >= 1
-
-
 def stochastic(m, n, data):
     """every row of the (2**m x 2**n) [in, out] matrix is a probability vector"""
     rows = numpy.array([num_value(*x) for x in data], dtype=complex).reshape(2 ** m, 2 ** n)
@@ -319,7 +291,7 @@ def tp_box(b):
     if t == B_DISCARD:
         return True
     if t == B_MEASURE:
-        return not b[3]
+        return True
     if t == B_ENCODE:
         return bool(b[2]) and not b[3]
     if t == B_MSWAP:
@@ -346,7 +318,7 @@ def _pure_ref(b):
 
 
 def ref_box(b):
-    """Per-wire-layout array of a box, axes = true_dom wires then true_cod wires."""
+    """Per-wire-layout array of a box, axes = dom wires then cod wires."""
     t = b[0]
     if t < 10:
         a = _pure_ref(b)
@@ -426,7 +398,7 @@ def reference(dom, layers):
     m = numpy.eye(2 ** nd, dtype=complex)            # rows: inputs, columns: current wires
     scan = list(dom)
     for off, b in layers:
-        d, c = true_dom(b), true_cod(b)
+        d, c = box_dom(b), box_cod(b)
         if scan[off:off + len(d)] != d:
             raise ValueError("ill-typed layer %r on %r" % ((off, b), scan))
         la, ra = _naxes(scan[:off]), _naxes(scan[off + len(d):])
